@@ -296,10 +296,45 @@ def snapshot_cadence(cr: CheckRun) -> None:
     cr.mark("snapshot-cadence")
 
 
+def unbounded(cr: CheckRun) -> None:
+    """Apalache (symbolic integers): the target is always the least unconsumed boundary - for every cycle count, gap and restored
+    target - and the C13 clauses follow from that in one step.  The step clauses are discharged for a symbolic period P > 0; the
+    inductiveness of Ind needs P concrete (non-linear otherwise): small periods, primes and the machine's real 2048 / 512000."""
+    import shutil
+    src = SD / "ind"
+    ind = vlib.scratch("C13") / "ind"
+    shutil.rmtree(ind, ignore_errors=True)
+    shutil.copytree(src, ind)
+    quick = cr.tier == "quick"
+    periods = [1, 2, 7, 2048, 512000] if quick else [1, 2, 3, 4, 5, 6, 7, 11, 64, 1000, 2048, 65521, 512000, 1 << 27]
+    jobs = []
+    for P in periods:
+        mod = ind / f"ApaTimers_{P}.tla"
+        mod.write_text(f"---- MODULE ApaTimers_{P} ----\nEXTENDS Integers\nVARIABLES\n  \\* @type: Int;\n  cycle,\n  \\* @type: Int;\n  next,\n"
+                       f"  \\* @type: Int;\n  phase,\n  \\* @type: Int;\n  low,\n  \\* @type: Bool;\n  fired,\n  \\* @type: Str;\n  last\n"
+                       f"\\* @type: Int;\nPP == {P}\nINSTANCE TimersInd WITH P <- PP\n====\n")
+        jobs.append((str(ind), mod.name, ["--init=Init", "--inv=Ind", "--length=0"], f"C13-base-{P}", 600))
+        for inv in ("Ind", "Consumed"):
+            jobs.append((str(ind), mod.name, ["--init=IndInit", f"--inv={inv}", "--length=1"], f"C13-step-{inv}-{P}", 600))
+    for inv in ("FiredIffBoundary", "NextInFuture"):
+        jobs.append((str(ind), "ApaTimersSym.tla", ["--cinit=CInit", "--init=IndInit", f"--inv={inv}", "--length=1"], f"C13-sym-{inv}", 900))
+    res = vlib.pmap(vlib.run_apalache, jobs, procs=min(8, vlib.NCPU))
+    for r in res:
+        if r["outcome"] != "NoError":
+            raise MachineryError(f"Apalache: {r['tag']} {r['args']} -> {r['outcome']} {r['tail']}")
+    cr.cov["apalache"] = [{k: r[k] for k in ("tag", "outcome", "wall_s")} for r in res]
+    # the closed form used there is the loop of Timers.tla (TLC, finite box)
+    r2 = run_tlc(ind, "MCPushAgrees", "MCPushAgrees.cfg", workers=1, tag="C13-pushagrees", timeout=600)
+    tlc_expect_ok(r2, "MCPushAgrees")
+    cr.add_tlc("push-closed-form-agrees", r2)
+    cr.mark("apalache")
+
+
 def run(cr: CheckRun) -> None:
     vlib.setup_repo_imports()
     vlib.build_vh()
     quick = cr.tier == "quick"
+    unbounded(cr)
     # 1. exhaustive model check of the specification (properties on the model)
     tlc_exhaustive(cr, "MCTimers_quick.cfg" if quick else "MCTimers_thorough.cfg")
     # 2. spec -> code: all behaviours of the small recorded model + simulated deeper ones
